@@ -383,7 +383,11 @@ fn run() {
         "C15" => c15::run(&mut report),
         "C16" => c16::run(&mut report),
         "C18" => c18::run(&mut report),
-        "C08" => c08::run(&mut report),
+        "C08" => {
+            c08::run(&mut report);
+            // init / regenerate audit-as-crates-io on projects with crates.io namesakes
+            ucmd::run(&mut report);
+        }
         "C17" => c17::run(&mut report),
         "C14" => c14::run(&mut report),
         "C19" => c19::run(&mut report),
